@@ -767,6 +767,16 @@ impl Search {
         );
     }
 
+    /// Verification accessor: the order in which the search would visit `moves`.
+    #[cfg(rce_verif)]
+    pub fn verif_order(
+        moves: &[Ply],
+        zkey: crate::board::zkey::ZKey,
+        killers: &[Option<Ply>; info::MAX_KILLERS],
+    ) -> Vec<Ply> {
+        MoveOrderer::new(moves, zkey, killers).collect()
+    }
+
     /// Verification accessor: (best move, best score, nodes) of the last search.
     #[cfg(rce_verif)]
     pub const fn verif_result(&self) -> (Option<Ply>, Option<Score>, NodeCount) {
